@@ -21,7 +21,7 @@ ClauseBroken(A, P) ==
 Init == tid \in 1..Len(Traces) /\ l = 1 /\ cur = EmptyARM /\ bad = 0
 Next == /\ l <= Len(Traces[tid].steps)
         /\ LET line == Traces[tid].steps[l]
-               o    == IF line.op.op = "LoadARM" THEN [op |-> "LoadARM", arm |-> AbsG(line.op.arm)] ELSE line.op
+               o    == IF line.op.op \in {"LoadARM", "LoadFile"} THEN [op |-> "LoadARM", arm |-> AbsG(line.op.arm)] ELSE line.op
                exp  == Apply(cur, o)
                got  == AbsG(line.state)
                P    == IF line.res.k = "adms" THEN [d \in DOMAIN line.res.v |-> AbsG(line.res.v[d])] ELSE <<>>
